@@ -119,6 +119,9 @@ func placeExec(c *Ctx, op string) {
 			os.Lchown(d, 1234, 1234)
 		}
 		old := time.Unix(1100000000, 987654321)
+		if ndst%2 == 0 { // a parent whose mtime lies ahead of the wall clock (a restored backup, a skewed NFS server)
+			old = time.Unix(4102444800, 123456789)
+		}
 		os.Chtimes(parent, old, old)
 		return d
 	}
@@ -169,6 +172,46 @@ func placeExec(c *Ctx, op string) {
 				defer syscall.Unmount(om, syscall.MNT_DETACH)
 			}
 			c.H(fmt.Sprintf("op:env:ovlwork=%v", envOvl))
+		case "ubad":
+			// a cache hit whose placement cannot be carried out for a reason that has nothing to do with the shelf (the
+			// mount work area / the destination's parent is a plain file), while a read-only placement from the shelf is
+			// live: the shelf stays what it is and the live placement keeps showing the ware
+			if shelfRef == "" {
+				tartrans.Unpack(ctx, id, "-", uf, rio.Placement_None, wh, rio.Monitor{})
+				checkShelf("init")
+			}
+			live := newDst("absent")
+			jan, le := placer.BindPlacer(fs.MustAbsolutePath(shelf), fs.MustAbsolutePath(live), false)
+			afile := filepath.Join(base, fmt.Sprintf("plainfile%d", ndst))
+			os.WriteFile(afile, []byte("x"), 0644)
+			d := newDst("absent")
+			if x[1] == "mount" {
+				old, had := os.LookupEnv("RIO_MOUNT_WORKDIR")
+				os.Setenv("RIO_MOUNT_WORKDIR", filepath.Join(afile, "work"))
+				_, e3, pan3 := safeCall(func() (api.WareID, error) {
+					return tartrans.Unpack(ctx, id, d, uf, rio.Placement_Mount, wh, rio.Monitor{})
+				})
+				if had {
+					os.Setenv("RIO_MOUNT_WORKDIR", old)
+				} else {
+					os.Unsetenv("RIO_MOUNT_WORKDIR")
+				}
+				c.H("op:ubad:mount:" + resTok(id, e3, pan3))
+				if e3 == nil && pan3 == "" {
+					syscall.Unmount(d, 0)
+				}
+			} else {
+				d = filepath.Join(afile, "dst")
+				_, e3, pan3 := safeCall(func() (api.WareID, error) {
+					return tartrans.Unpack(ctx, id, d, uf, rio.Placement_Copy, wh, rio.Monitor{})
+				})
+				c.H("op:ubad:copy:" + resTok(id, e3, pan3))
+			}
+			checkShelf("after a cache hit whose " + x[1] + " placement was refused")
+			if le == nil {
+				checkDst(live, "a live read-only placement, after a later "+x[1]+" placement from the same shelf was refused,", true)
+				jan.Teardown()
+			}
 		case "other":
 			tartrans.Unpack(ctx, id2, "-", uf, rio.Placement_None, wh, rio.Monitor{})
 			c.H("op:other")
@@ -209,7 +252,7 @@ func placeExec(c *Ctx, op string) {
 				if pre == "symlink" {
 					c.H("op:u:" + mode + ":symlink-refused")
 				} else if envOvl && mode == "mount" {
-					c.H("op:u:mount:refused-in-ovl-env")
+					c.H("op:u:mount:refused-in-ovl-env:" + resTok(id3, e3, pan3))
 				} else if !(mode == "direct" && pre != "absent") { // direct placement over existing content is not promised to work
 					c.PropFail("placement-failed", fmt.Sprintf("unpack(%s) over %s destination: %s", mode, pre, resTok(id3, e3, pan3)), op)
 				}
@@ -454,6 +497,11 @@ func placeEngine(c *Ctx) {
 				ops = append(ops, "alt:"+modes[1+c.Intn(3)])
 			}
 			ops = append(ops, fmt.Sprintf("u:%s:%s", modes[c.Intn(4)], pres[c.Intn(len(pres))]))
+		}
+		if k%2 == 0 {
+			ops = append(ops, "ubad:mount")
+		} else {
+			ops = append(ops, "ubad:copy")
 		}
 		// C11: placements, writes, teardowns, placements again
 		np := 0
